@@ -458,7 +458,7 @@ PROPS["C13"] = {
 
 PROPS["C10"] = {
     "kani_units": ["U11", "U14", "U38"],
-    "verus_units": ["tree_deref"],
+    "verus_units": ["tree_deref", "indexed_write_plan"],
     "syntactic": ["claim_tree_values_checks_before_claim"],
     "level": "other",
     "technique": "Kani/CBMC contracts on the real packed-node decoder and on the representability check of the encoder",
@@ -543,6 +543,10 @@ UNIT_META = {
                    "assumes": ["the chain reader with its collecting closure (for_parts(Fetch, index, log, |buf| result.extend_from_slice(buf))) is replaced by a contract returning what the slot holds (live chain / zero counter / not a value head / read failure); its ingredients are checked boundedly under C06 (U6-R)",
                                "the client callback becomes a recorder object (rewrite of the call expression, listed); AtomicU64::load and Error are stand-ins declared in the template",
                                "slot 0 is the table header: the walk is specified over slots 1..written"]},
+    "indexed_write_plan": {"functions": ["db::IndexedChangeSet::write_plan"],
+                           "assumes": ["HashColumn::{write_plan (U40), write_address_value_plan, write_address_inc_ref_plan, get}, DbInner::get_tree, the tree reader lock and write_dereference_children_plan (U18) are contracts appending abstract events to the record under assembly",
+                                       "the local `column` that shadows the parameter is renamed (listed rewrites); `db: &Arc<DbInner>` becomes `&DbInner`",
+                                       "DbInner::get_tree does not fail (the code unwraps its result)"]},
     "commit_publish": {"functions": ["db::DbInner::commit_raw (validate-then-publish block: from the first validation loop to the construction of the queue entry; fragment)"],
                        "assumes": ["the lock guards `queue` / `overlay` of the real function become &mut parameters of a hand-written wrapper (rule R8); loops get iterator names and `&map` becomes `map.iter()` (listed rewrites)",
                                    "IndexedChangeSet / BTreeChangeSet::{check, copy_to_overlay} carry the contracts proved by unit overlay_publish (check accepts exactly valid change sets; copy_to_overlay cannot fail on a valid one); the byte-counter preconditions of copy_to_overlay are assumed",
@@ -667,7 +671,7 @@ PROPS["C06"].update({
 
 PROPS["C01"] = {
     "kani_units": ["U30", "U29", "U40", "U15", "U8d"],
-    "verus_units": ["overlay_publish", "lookup_chain"],
+    "verus_units": ["overlay_publish", "indexed_write_plan", "lookup_chain"],
     "level": "other",
     "technique": "Kani/CBMC modular contracts on the real read path (DbInner::get / get_size, HashColumn::get) and write dispatch, Verus contracts on commit-overlay publication and the collision-chain lookup; one contract per pipeline stage, composed on paper",
     "claim": "Per-stage contracts of the hash-column map, each on the real code with its callees replaced by contracts: (queued) a commit publishes exactly the in-order fold of its operations into the commit overlay, last operation on a key wins (Verus, unbounded); (read) DbInner::get / get_size look the hashed key up in the commit overlay first -- a queued value wins, a queued removal hides whatever the tables hold, the column is not consulted -- and otherwise return what the column holds, get_size being the length of exactly the value get returns (Kani, bounded: one column, scripted overlay and column states); (column read) HashColumn::get searches the current index and then every queued older index in order, first hit wins, absent only after all were searched; within an index the collision chain never stops at a foreign key and never skips a match (Verus, unbounded); (apply) a write plan replaces / inserts / removes exactly the entry of the key in the index it lives in (Kani, bounded). The statement's quantification over pipeline progress (queued, logged, synced, applied, reclaimed), reopen and arbitrary histories is a composition over these stages and is not mechanised.",
@@ -740,3 +744,5 @@ PROPS["C04"]["does_not_cover"] = ["BTreeIterState::{seek, next, exit} (walk over
 PROPS["C07"]["claim"] = PROPS["C07"]["claim"].replace("Bounded, callees by contract: write_existing_value_plan", "Bounded, callees by contract: HashColumn::write_plan applies an operation to the entry of an indexed key where it was found, stores and indexes a Set of a new key, and ignores (writes nothing for) a Reference or Dereference of an absent key; write_existing_value_plan")
 PROPS["C04"]["syntactic"] = ["btree_commit_sorts_stably"]
 PROPS["C04"]["claim"] = PROPS["C04"]["claim"].replace("change sets are ordered by key only.", "change sets are ordered by key only; BTreeChangeSet::write_plan hands every operation of the commit to the tree in key order, operations on one key in commit order (two operations; that the sort is a stable one is a text-level side condition), and writes the new root / depth to the stored header in the same plan whenever they moved.")
+PROPS["C10"]["claim"] = PROPS["C10"]["claim"].replace("Release:", "Applying a queued transaction (Verus, unbounded): IndexedChangeSet::write_plan writes every key operation in commit order and then every node change in order (new node bytes at their claimed addresses, count raised for every reused node), lowers the count of the root of a dereferenced tree and releases its children exactly when that count was 1 (the last reference) and never otherwise. Release:")
+PROPS["C01"]["claim"] = PROPS["C01"]["claim"].replace("(apply) a write plan", "(apply) IndexedChangeSet::write_plan hands the key operations of a transaction to the column one by one in commit order (Verus, unbounded); a write plan")
